@@ -4,6 +4,7 @@
    seedtest.py run <dir> <N> <Cxx>...    apply <dir>/patchN.diff to /repo, run bin/check <Cxx> quick for each, undo
 Development tool (not a MANIFEST command)."""
 import os, re, shutil, subprocess, sys, tempfile
+VERIF = os.path.dirname(os.path.dirname(os.path.abspath(__file__)))
 ENV = dict(os.environ, GOFLAGS="-mod=mod", GOPROXY="off", GOSUMDB="off", GOTOOLCHAIN="local")
 
 def sh(cmd, cwd=None, timeout=3600):
@@ -80,12 +81,12 @@ def run(d, n, props, tier="quick"):
     results = {}
     # evidence written while a seeded change is applied must never replace the evidence of the unchanged tree
     evbak = tempfile.mkdtemp(prefix="seedev_")
-    for f in os.listdir("/verif/evidence"):
-        shutil.copy2(os.path.join("/verif/evidence", f), evbak)
+    for f in os.listdir(VERIF + "/evidence"):
+        shutil.copy2(os.path.join(VERIF + "/evidence", f), evbak)
     env = dict(ENV, VERIF_REPO=copy)
     try:
         for p in props:
-            pr = subprocess.run(["/verif/bin/check", p, tier], cwd="/verif", env=env, stdout=subprocess.PIPE, stderr=subprocess.STDOUT,
+            pr = subprocess.run([VERIF + "/bin/check", p, tier], cwd=VERIF, env=env, stdout=subprocess.PIPE, stderr=subprocess.STDOUT,
                                 text=True, errors="replace", timeout=7200)
             rc, out = pr.returncode, pr.stdout
             last = [l for l in out.splitlines() if l.startswith(("VIOLATION", "OK ", "INFRASTRUCTURE"))]
@@ -93,11 +94,12 @@ def run(d, n, props, tier="quick"):
     finally:
         shutil.rmtree(scratch, ignore_errors=True)
         # bring the regenerated Lean data and the driver back to the unchanged tree
-        sh(["/verif/build/extract", "-repo", "/repo", "-out", "/verif/lean/SC/Gen"])
-        sh([sys.executable, "/verif/tools/asmfacts.py", "/repo", "/verif/lean/SC/Gen/AsmFacts.lean", "/verif/harness/cmd/asmstep"])
-        sh(["lake", "build", "driver"], cwd="/verif/lean")
+        sh([VERIF + "/build/extract", "-repo", "/repo", "-out", VERIF + "/lean/SC/Gen"])
+        sh([VERIF + "/build/ssagen", "-repo", "/repo", "-out", VERIF + "/lean/SC/Gen/GoSsa.lean"])
+        sh([sys.executable, VERIF + "/tools/asmfacts.py", "/repo", VERIF + "/lean/SC/Gen/AsmFacts.lean", VERIF + "/harness/cmd/asmstep"])
+        sh(["lake", "build", "driver"], cwd=VERIF + "/lean")
         for f in os.listdir(evbak):
-            shutil.copy2(os.path.join(evbak, f), "/verif/evidence")
+            shutil.copy2(os.path.join(evbak, f), VERIF + "/evidence")
         shutil.rmtree(evbak)
     for p, (rc, line) in results.items():
         print("RUN %s patch%s on %s: rc=%d %s" % (os.path.basename(d), n, p, rc, line[:300]))
